@@ -37,6 +37,15 @@ def build(v, suite, ops, rnd, tier, h, d):
                     ops.add(s["name"], "scan_range", key=mk(k), to=mk(k), meta={"cls": "scan_range/" + cls}, **kw)
                 v.nontrivial((s["name"], name, k))
             ops.add(s["name"], "index_scan", meta={"cls": "index_scan/%s/%s" % (s["name"], name)}, **kw)
+            # an inner equality scan on the SAME *Index object from inside the outer scan's callback, stopping early: the
+            # outer scan goes on as if nothing had happened (the scans keep no state in the object)
+            from vlib import btrace
+            for k in keys[:2]:
+                for op_, extra_ in (("index_scan", {}), ("scan_eq", {"key": mk(k)}), ("scan_min", {"key": mk(k)})):
+                    for inner_stop in (1, 2):
+                        i_ = ops.add(s["name"], op_, meta={"cls": "%s/%s/%s/nested-scan-eq" % (op_, s["name"], name)}, **dict(kw, **extra_))
+                        ops.items[i_]["h"].update(nested_at=1, nested={"op": "scan_eq", "dbkey": btrace.harness_key(mk(keys[-1])), "stop": inner_stop})
+                        ops.items[i_]["conf"] = False
 
 
 def run(tier):
